@@ -178,7 +178,9 @@ def work(item):
                         new = [s for s in s1 if len(s['exponents']) == 1 and s['region'] == '' and not any(canon(s) == canon(t) for t in s0)]
                         el1 = dict(electron_shells=s0 + new) if len(new) + len(s0) == len(s1) else dict(electron_shells=s1)
                     bad, nnew = judge_aug(el, el1, n, steep)
-                    e = dict(z=z, bad=bad, nnew=nnew, ecp_same=ecp_of(el) == ecp_of(r['elements'][z]))
+                    # get_basis(augment_steep) ends with sort_basis, which may reorder the potentials: compared as a multiset on that path
+                    e = dict(z=z, bad=bad, nnew=nnew, ecp_same=(ecp_multiset(el) == ecp_multiset(r['elements'][z])) if via == 'get_basis'
+                             else (ecp_of(el) == ecp_of(r['elements'][z])))
                     if via == 'manip':
                         e['in'] = shells_of(el)
                         e['new'] = [(s['angular_momentum'], s['exponents'][0]) for s in shells_of(el1)[len(shells_of(el)):]]
